@@ -192,6 +192,19 @@ CHECKS["C19"] = dict(
           "is not modelled (partial)."),
     design="6/C19", technique="Coq proof over R parametric in the solver oracle + in-Coq certificate replay of recorded solves")
 
+CHECKS["C18"] = dict(
+    text=("Theorems over R about the Gallina model of lapy/conformal.py: inverse_stereographic lands on the unit sphere and the "
+          "stereographic pair is mutually inverse away from the pole; the Beltrami coefficient of z -> a z + b conj z (|b| < |a|) "
+          "followed by ANY isometric embedding is b/a on every non-degenerate triangle (discrete derivative operators exact on affine "
+          "functions); linear_beltrami_solver reproduces every landmark exactly for every solver meeting its contract; "
+          "spherical_conformal_map raises ValueError iff Euler characteristic <> 2 and its final step returns unit vectors and inverts "
+          "the south-pole projection (not its mirror image). Correspondence: stereographic pair, Beltrami coefficients and the final "
+          "step are compared with the model; the answers returned by linear_beltrami_solver (SuperLU oracle) are verified inside Coq "
+          "against the model's system, also for the calls recorded inside spherical_conformal_map. Unit norm, positive volume for "
+          "outward inputs, similarity invariance, reproduction of piecewise-affine maps, Moebius correction (norm, cross-ratios, "
+          "objective) are decided by oracles on the implementation; the north-pole stage is not modelled (partial)."),
+    design="6/C18", technique="Coq proof over R (field identities, solver-oracle contract) + vm_compute correspondence and in-Coq certificate")
+
 NOT_YET = {}
 
 
